@@ -1,4 +1,6 @@
 CONSTANTS
+  TransitiveSkip = TRUE
+  FaultMaxN = 0
   MaxN = 5
   Family = "max"
 SPECIFICATION Spec
